@@ -47,6 +47,7 @@ type l22Msg struct {
 	CCID   ev.B `json:"ccid"`
 	To     int  `json:"to"` // destination slot 2..4 (chain ids 102, 103; 104 is never registered)
 	Args   ev.B `json:"args,omitempty"`
+	ReqLen int  `json:"reqlen,omitempty"` // > 0: Args padded so that the request record is exactly ReqLen bytes
 }
 
 type l22Tx struct {
@@ -106,6 +107,9 @@ func genL22(t *rapid.T) l22Case {
 	for i := 0; i < nm; i++ {
 		c.Msgs = append(c.Msgs, l22Msg{TxHash: genBytes(0, 8).Draw(t, "txhash"), CCID: pool[rapid.IntRange(0, npool-1).Draw(t, "ccidx")],
 			To: rapid.SampledFrom([]int{2, 2, 2, 3, 3, 4}).Draw(t, "to"), Args: genBytes(0, 24).Draw(t, "args")})
+		if rapid.IntRange(0, 2).Draw(t, "sizeclass") == 0 {
+			c.Msgs[i].ReqLen = rapid.SampledFrom(reqLenClasses).Draw(t, "reqlen")
+		}
 	}
 	// bring-up: the source chains exist; the destinations usually do not yet
 	setup := []l22Tx{{K: "regfull", C: 0}}
@@ -194,6 +198,9 @@ func runL22(ctx *ev.Ctx, c l22Case) {
 		requests: map[string][]byte{}, probe: map[string][]byte{}}
 	for _, d := range c.Msgs {
 		rm := &refMsg{TxHash: d.TxHash, CCID: d.CCID, To: l22ID(2 + mod(d.To-2, 3)), ToC: []byte{0xcc}, Method: []byte("unlock"), Args: d.Args}
+		if d.ReqLen > 0 {
+			padToRequestLen(rm, d.ReqLen, byte(len(m.msgs)))
+		}
 		m.msgs = append(m.msgs, rm)
 		m.extra = append(m.extra, rm.encode())
 	}
@@ -283,6 +290,9 @@ func runL22(ctx *ev.Ctx, c l22Case) {
 					rec := refRequest(relay, srcID, msg)
 					m.requests[string(requestKey(msg.To, relay))] = rec
 					p.request = rec
+					if isReqLenClass(len(rec)) {
+						ctx.Label(fmt.Sprintf("accepted-request-size:%d", len(rec)))
+					}
 					routers["vote(ledger)"]++
 				}
 			}
